@@ -202,23 +202,48 @@ func runC11InBubble(c c11Case) (out kit.Outcome) {
 			k := op.Idx % len(held)
 			h := held[k]
 			held = append(held[:k], held[k+1:]...)
-			if len(backlog) > 0 && len(held) < limit {
-				j := 0
-				if lifo {
-					j = len(backlog) - 1
-				}
+			room := limit - len(held)
+			if len(backlog) > 0 && room > 0 {
 				if len(backlog) >= 3 {
 					sawChoice = true
 				}
 				if goneAhead {
 					sawGoneAhead = true
 				}
+			}
+			w.release(h, op.Outcome)
+			synctest.Wait()
+			// One release hands capacity to the caller first in line - and, where the enforced limit has grown in
+			// the meantime, possibly to further callers, always in the configured order: the callers served form a
+			// prefix of the line, at least one of them if there is room, never more than there is room for.
+			served := 0
+			for len(backlog) > 0 {
+				j := 0
+				if lifo {
+					j = len(backlog) - 1
+				}
 				next := backlog[j]
+				w.mu.Lock()
+				done, ok := next.cl.Done, next.cl.OK
+				w.mu.Unlock()
+				if !done || !ok {
+					break
+				}
 				backlog = append(backlog[:j], backlog[j+1:]...)
 				held = append(held, next.cl)
 				expected[next.cl.ID] = true
+				served++
 			}
-			w.release(h, op.Outcome)
+			switch {
+			case served > maxInt(room, 0):
+				return finish(fmt.Sprintf("op %d (release): %d waiting callers were served by one release although only %d unit(s) were free (limit %d)", i, served, maxInt(room, 0), limit))
+			case served == 0 && room > 0 && len(backlog) > 0:
+				first := backlog[0]
+				if lifo {
+					first = backlog[len(backlog)-1]
+				}
+				expected[first.cl.ID] = true // reported by verify below as "should have returned"
+			}
 		case "sleep":
 			time.Sleep(time.Duration(op.D) * time.Millisecond)
 			synctest.Wait()
